@@ -166,6 +166,17 @@ func (store *ModuleStore) NewModule(ctx Context, impl *ModuleImpl) (*Module, err
 		Globals:    impl.Globals.Copy(),
 		Context:    ctx,
 	}
+	// A global which is a mutable container (os.environ) is a container
+	// of this module instance: changing it in place in one context
+	// must not show in the module instances of the other contexts
+	for k, v := range m.Globals {
+		switch x := v.(type) {
+		case StringDict:
+			m.Globals[k] = x.Copy()
+		case *List:
+			m.Globals[k] = x.Copy()
+		}
+	}
 	// Insert the methods into the module dictionary
 	// Copy each method an insert each "live" with a ptr back to the module (which can also lead us to the host Context)
 	for _, method := range impl.Methods {
